@@ -29,8 +29,20 @@ fn invalid_project(rng: &mut Rng) -> (Files, &'static str, Option<&'static str>)
     let mut files = Files::new();
     let nerr = 2 + rng.below(5);
     let names = ["Foo", "Bar", "Baz", "Qux", "Nope", "Zed", "Abc"];
-    let kind = rng.below(16);
+    let kind = rng.below(18);
     match kind {
+        16 | 17 => {
+            // the same modules reached by file-relative and by root-relative (`/…`) paths, from the main file and
+            // from a sub-folder; errors sit in the imported files (their rendering names the files' paths)
+            let deep = kind == 17;
+            files.insert("main.sy".into(), format!("use /lib/a\nuse lib/b\n{}\nstart :: fn do\n    print(a.va)\n    print(b.wb)\nend\n", if deep { "use /lib/deep/c\n" } else { "" }));
+            files.insert("lib/a.sy".into(), "use /lib/b\n\nva :: 1 + \"s\"\nvb :: b.wb\n".into());
+            files.insert("lib/b.sy".into(), format!("wb :: nope{}\n", nerr));
+            if deep {
+                files.insert("lib/deep/c.sy".into(), "use /lib/a\nuse /lib/b\n\nvc :: a.va +\n".into());
+            }
+            (files, "errors in modules imported by file-relative and root-relative paths", None)
+        }
         13 => {
             // definitions colliding with names the preamble imports into every file (the error points into
             // the preamble, whose file id depends on the project), in a project of 1-3 files
@@ -201,6 +213,23 @@ fn invalid_project(rng: &mut Rng) -> (Files, &'static str, Option<&'static str>)
     }
 }
 
+/// A valid project whose modules are reached under several spellings: `use counter` / `use /counter` from the main
+/// file and from a sub-folder. One module must stay one module (its mutable global is shared).
+fn mixed_import_project(rng: &mut Rng) -> Files {
+    let mut files = Files::new();
+    let n = 1 + rng.below(4);
+    let mut main = String::from("use counter\nuse lib/helper\nuse /lib/deep/far\n\nstart :: fn do\n    counter.bump()\n");
+    for _ in 0..n {
+        main.push_str(["    helper.twice()\n", "    far.once()\n", "    counter.bump()\n", "    print(counter.count)\n"][rng.below(4)]);
+    }
+    main.push_str("    print(counter.count)\nend\n");
+    files.insert("main.sy".into(), main);
+    files.insert("counter.sy".into(), "count := 0\n\nbump :: fn do\n    count += 1\nend\n".into());
+    files.insert("lib/helper.sy".into(), "use /counter\n\ntwice :: fn do\n    counter.bump()\n    counter.bump()\nend\n".into());
+    files.insert("lib/deep/far.sy".into(), "use /counter\nuse /lib/helper\n\nonce :: fn do\n    counter.bump()\n    helper.twice()\nend\n".into());
+    files
+}
+
 fn valid_project(rng: &mut Rng, depth: u32) -> Files {
     let p = gen::generate(rng, Cfg::general(depth));
     let mut t = crate::print::canonical(&p);
@@ -290,7 +319,9 @@ impl Check for C16 {
     }
     fn run_case(&self, ctx: &Ctx, index: u64, st: &mut Stats) {
         let mut rng = Rng::for_case(ctx.seed, "C16", index);
-        let (files, what, hazard): (Files, &str, Option<&'static str>) = if index % 2 == 0 {
+        let (files, what, hazard): (Files, &str, Option<&'static str>) = if index % 16 == 8 {
+            (mixed_import_project(&mut rng), "valid project whose modules are imported under file-relative and root-relative paths", None)
+        } else if index % 2 == 0 {
             (valid_project(&mut rng, 2), "valid program with many blobs/enums/fields", None)
         } else {
             invalid_project(&mut rng)
